@@ -2,7 +2,7 @@
 META = {
     "level": "exploration",
     "technique": "runtime monitoring of generated single-writer operation histories on an in-process grid against a bytearray reference model, under seeded delivery schedules",
-    "text": "Runs the real MutableFileNode/MutableFileVersion/Publish/Retrieve/ServermapUpdater and real storage servers for histories of up to 8 operations by one client on one mutable file (create, overwrite, upload with a MODE_WRITE servermap, modify with append/prepend/replace/shrink/no-op modifiers, version-level overwrite/modify, in-place update and append at boundary-biased offsets and lengths: 0, middle, segment boundary +-1, EOF, growth across power-of-two segment counts) in SDMF and MDMF, k in 1..4, N<=8, 1..10 servers, three transport profiles, with re-used and freshly created node objects for the writer and for the reader. After every operation the whole file (download_best_version / version.read(0,None)), the version size and a boundary grid of partial reads version.read(consumer, offset, size) must equal the model; the bytes handed to a modifier must equal the model; after an operation that errbacks the content must still equal the model without that operation. Sampled histories, not exhaustive.",
+    "text": "Runs the real MutableFileNode/MutableFileVersion/Publish/Retrieve/ServermapUpdater and real storage servers for histories of up to 8 operations by one client on one mutable file (create, overwrite, upload with a MODE_WRITE servermap, modify with append/prepend/replace/shrink/no-op modifiers, version-level overwrite/modify, in-place update and append at boundary-biased offsets and lengths: 0, middle, segment boundary +-1, EOF, growth across power-of-two segment counts) in SDMF and MDMF, k in 1..4, N<=8, 1..10 servers, three transport profiles, with re-used and freshly created node objects for the writer and for the reader. After every operation the whole file (download_best_version / version.read(0,None)), the version size and a boundary grid of partial reads version.read(consumer, offset, size) must equal the model; the bytes handed to a modifier must equal the model; every operation (all are within the documented preconditions: update offsets <= size, any data length including 0, empty files included) must call back - an errback on this honest, fully connected grid is a violation keyed by op class + structural feature (empty file, zero-length write, append at a segment-aligned EOF, growth across a power-of-two segment count, several shares per server, stale cached size) + exception type - and afterwards the content must still equal the model without that operation. Sampled histories, not exhaustive.",
     "note": "Trusts the in-process Wire (stands in for foolscap/TCP), the virtual reactor and the bytearray model. All servers are honest and up (faults are C10/C47). The MDMF segment size is the repository constant DEFAULT_MUTABLE_MAX_SEGMENT_SIZE (128 KiB) in part of the cases and the same module constant set to a smaller value in the others, so that many-segment files are cheap; reads beyond EOF and update offsets beyond EOF are forbidden by the API and not generated.",
 }
 LEVEL = "exploration"
@@ -23,7 +23,6 @@ def run(ck):
     from allmydata.mutable import publish as publish_mod
     default_seg = publish_mod.DEFAULT_MUTABLE_MAX_SEGMENT_SIZE
     ck.extra["default_mdmf_segment_size"] = default_seg
-    ck.extra["op_failures"] = {}
     i = 0
     try:
         while ck.more(min_cases=60):
@@ -47,7 +46,7 @@ def run(ck):
     finally:
         publish_mod.DEFAULT_MUTABLE_MAX_SEGMENT_SIZE = default_seg
     ck.observe("eventual-exceptions", len(env.evq.exceptions))
-    ck.require_monitor("full-read-equals-model", "partial-read-equals-model", "modifier-sees-model")
+    ck.require_monitor("operation-succeeds-on-honest-grid", "full-read-equals-model", "partial-read-equals-model", "modifier-sees-model")
     ck.require_reach("mdmf-in-place-update-ok", "sdmf-update-ok", "update-append-ok",
                      "update-straddles-segment-boundary", "update-grows-across-pow2-segment-count",
                      "modify-changed-content", "modify-no-op", "overwrite-ok", "upload-with-servermap-ok",
@@ -241,7 +240,10 @@ class History(object):
         st, node = self.wait(self.writer_client.create_mutable_file(MutableData(data), version=ver))
         rec["st"] = st
         if st != "ok":
-            self.note_failure("create", node, st)
+            if st == "err":
+                self.note_failure("create", node, st, rec)
+            else:
+                self.ck.observe("op-did-not-complete:create:%s" % st)
             raise Abort()
         self.writer = node
         self.wcap = node.get_uri()
@@ -347,6 +349,8 @@ class History(object):
         ck, p = self.ck, self.p
         rec["st"] = st
         S = p["S"]
+        if st in ("ok", "err"):
+            ck.mon("operation-succeeds-on-honest-grid")
         # what the modifier was shown is a read of the file
         for (seen, first_time) in modcalls:
             ck.mon("modifier-sees-model")
@@ -363,27 +367,64 @@ class History(object):
             self.count_reach(rec, opclass, old, new)
             self.verify(rec, opclass, ok=True, alt=None)
         elif st == "err":
-            self.note_failure(opclass, res, st, rec, empty=(len(old) == 0))
             rec["error"] = ferr(res)
-            ck.hit("failed-op")
+            self.note_failure(opclass, res, st, rec, empty=(len(old) == 0))
             self.verify(rec, opclass, ok=False, alt=new)
         else:
             ck.observe("op-did-not-complete:%s:%s" % (opclass, st))
             raise Abort()
 
     def note_failure(self, opclass, res, st, rec=None, empty=False):
-        ck = self.ck
-        name = res.type.__name__ if st == "err" else st
-        if opclass.startswith("update") and empty:
-            ck.observe("update-on-empty-file-failed:%s" % name)     # known: ZeroDivisionError (SDMF), DESIGN 4.5
-            return
-        if rec is not None and rec.get("len") == 0 and opclass.startswith("update"):
-            ck.observe("zero-length-update-failed:%s" % name)
-            return
-        ck.observe("op-failed-on-honest-grid:%s:%s" % (opclass, name))
-        fl = ck.extra["op_failures"]
-        if len(fl) < 6:
-            fl.setdefault("%s:%s" % (opclass, name), dict(self.desc(), error=ferr(res) if st == "err" else st))
+        """An operation that errbacks on an honest, fully connected grid within the documented preconditions does not
+        do what the statement describes: judged.  One key per mechanism: op class + structural feature of the operation
+        + exception type (the exception carried inside a NotEnoughServersError, if any)."""
+        import re
+        ck, p = self.ck, self.p
+        name = res.type.__name__
+        text = str(res.value)
+        inner = re.findall(r"<class '(?:[\w.]*\.)?(\w+)'>", text)
+        exc = name if not inner else "%s(%s)" % (name, inner[-1])
+        rec = rec or {}
+        feat = "any"
+        if opclass.startswith("update"):
+            S = p["S"]
+            off, n, L0 = rec["off"], rec["len"], rec["len_before"]
+            nsz = rec.get("node_size_before")
+            s0, s1 = div_ceil(L0, S), div_ceil(max(L0, off + n), S)
+            if L0 == 0:
+                feat = "empty-file"
+            elif opclass == "update-mdmf" and off == L0 and L0 % S == 0:
+                feat = "append-at-segment-boundary-eof"
+            elif n == 0:
+                feat = "zero-length-write"
+            elif opclass == "update-mdmf" and s1 > s0 and pow2_roundup(max(s0, 1)) < s1:
+                feat = "segment-count-crosses-power-of-two"
+            elif opclass == "update-mdmf" and nsz is not None and max(nsz, off + n) != max(L0, off + n):
+                feat = "stale-cached-node-size"
+            elif opclass == "update-mdmf" and p["nservers"] < p["n"]:
+                feat = "several-shares-per-server"
+            elif off + n > L0:
+                feat = "extends-file"
+            else:
+                feat = "within-file"
+        key = "%s-fails-%s-%s" % (opclass, feat, exc)
+        frames = [l.strip() for l in res.getTraceback().splitlines() if "/src/allmydata/" in l][-4:]
+        where = frames[-1].rsplit(" in ", 1)[-1] if frames else "?"
+        if (opclass == "update-mdmf" and p["nservers"] < p["n"] and feat != "empty-file"
+                and (exc, where) in (("AssertionError(int)", "_decode_blocks"), ("IndexError", "push_blockhashes"),
+                                     ("LayoutInvalid", "put_signature"))
+                or (opclass == "update-mdmf" and p["nservers"] < p["n"] and feat != "empty-file"
+                    and exc == "NotEnoughServersError(KeyError)")):
+            # all four are what an update sees when the servermap update finished before the boundary segments / block
+            # hashes of every share of a multi-share server had been recorded: fewer than k blocks to decode, no
+            # block-hash list for a share number that is re-encoded, or (nothing re-encoded) a share-hash list that is
+            # shorter than N.  Classification only; the verdict is the errback.
+            key = "update-mdmf-fails-update-data-incomplete-with-several-shares-per-server"
+        ck.hit("failed-op")
+        ck.violation(key, "%s%s on an honest, fully connected grid errbacked with %s: %s (at %s)" % (
+            opclass, "" if not opclass.startswith("update") else "(offset=%d, %d bytes) on a %d-byte file (segment %d, k=%d, N=%d, "
+            "%d servers)" % (rec["off"], rec["len"], rec["len_before"], p["S"], p["k"], p["n"], p["nservers"]),
+            name, text[:200], frames[-1:] or "?"), self.desc(dict(error=ferr(res), frames=frames)))
 
     def count_reach(self, rec, opclass, old, new):
         ck, p = self.ck, self.p
@@ -563,6 +604,19 @@ def firstdiff(a, b):
 # Tried and benign (documented in breaks_c09.py): SDMF IV reuse, tail decoded with the full-segment decoder, padded
 # tail size in _decode_blocks, dropping `end_data -= 1`, dropping the last old block-hash leaf (turns into an errback).
 #
-# GENUINE on the unchanged tree (key mdmf-update-uses-stale-cached-node-size): mutable/publish.py Publish.update() takes
-# the new data length from MutableFileNode.get_size() (a cache that update()/modify()/version.overwrite() never refresh)
-# instead of the version being updated; fix: `self.datalength = version[4]`.
+#   c09-replant-stale-node-size               mdmf-update-uses-stale-cached-node-size (+ update-mdmf-fails-stale-...)
+#   c09-replant-append-at-aligned-eof         update-mdmf-fails-append-at-segment-boundary-eof-IndexError
+# (15/15 caught on top of the two patches below.)
+#
+# Repaired in /repo after this check reported them: 0eb4d1b (Publish.update used the node's stale cached size),
+# 1699424 (append at a segment-aligned EOF asked for a segment that does not exist).
+# Repaired as well (73ba509 servermap, 7a3fd88 empty file, which takes the re-encode path):
+#   update-mdmf-fails-update-data-incomplete-with-several-shares-per-server
+#       mutable/servermap.py ServermapUpdater._got_results: `ds = []` inside the per-share loop (fetch_update_data branch)
+#       re-binds the list that collects the per-share DeferredLists, so the query is declared processed when only the LAST
+#       share of that server is done; if answers of one server overtake each other, the mapupdate finishes without the
+#       boundary segments / block hashes (and servermap entries) of the other shares.  fix: use a separate list name.
+#   update-mdmf-fails-empty-file-AssertionError(int), update-sdmf-fails-empty-file-ZeroDivisionError
+#       mutable/filenode.py MutableFileVersion._update: an empty MDMF file has no segment 0 to fetch/decode
+#       (retrieve.py _setup_encoding_parameters asserts read_length > 0); an empty SDMF file has segment size 0
+#       (div_ceil(old_size, 0)).  fix: `if old_size == 0: return self._upload(data)` before the segment arithmetic.
